@@ -485,9 +485,9 @@ func (h Hasher) U(x uint64) Hasher {
 	}
 	return h
 }
-func (h Hasher) I(x int) Hasher      { return h.U(uint64(x)) }
-func (h Hasher) F(x float64) Hasher  { return h.U(math.Float64bits(x)) }
-func (h Hasher) S(s string) Hasher   { return h.U(HashStr(s)) }
+func (h Hasher) I(x int) Hasher     { return h.U(uint64(x)) }
+func (h Hasher) F(x float64) Hasher { return h.U(math.Float64bits(x)) }
+func (h Hasher) S(s string) Hasher  { return h.U(HashStr(s)) }
 func (h Hasher) Fs(xs []float64) Hasher {
 	h = h.I(len(xs))
 	for _, x := range xs {
